@@ -76,8 +76,10 @@ def _build(r, b):
         c = {'dict': dict, 'odict': tg.OrderedDict, 'rdict': tg.RecDict, 'dsub': DictSub}[tag]()
         nid = len(b.nodes)
         b.nodes.append(c)
+        # (an OrderedDict filled through dict.__setitem__ has the items but iterates as empty)
+        setitem = tg.OrderedDict.__setitem__ if tag == 'odict' else dict.__setitem__
         for k, v in r[1]:
-            dict.__setitem__(c, tg._key(k), _build(v, b))
+            setitem(c, tg._key(k), _build(v, b))
         if tag == 'rdict':
             c._log, c._nid = b.log, nid
         return c
